@@ -30,16 +30,30 @@ def receiver_exclusion(P):
     added-leaf list only when it IS a leaf (even node index); parent entries must always be counted. Otherwise the two sides
     disagree on the position of a ciphertext whenever a parent with index 2k+1 sits next to an added leaf k."""
     from ..core.guards import GuardExtractor
+    from ..core.facts import callee_resolved, callee_path, module_private
     fn = P.fn('TreeKem::find_ciphertext_pos')
     r = Res()
     found = False
-    for k in P.closures_of(fn['key']):
-        f = P.fns[k]
+    # the filter predicate: a closure of find_ciphertext_pos, or a module-private helper the closure / the function hands the test to
+    cands = [(P.fns[k], False) for k in P.closures_of(fn['key'])]
+    for g in [fn] + [c for c, _ in cands]:
+        for bi, t in P.body(g).calls():
+            h = P.fns.get(callee_resolved(t)) or P.fns.get(callee_path(t))
+            if h is not None and h is not fn and module_private(h) and h['ret'] == 'bool' and h['loc'].startswith('mls-rs/src/tree_kem/kem.rs'):
+                cands.append((h, True))
+    for f, is_helper in cands:
         body = P.body(f)
         o = Origins(body)
         gx = GuardExtractor(body)
         for bi, t in body.calls():
-            if not re.search(r'::contains$', callee_name(t)) or o.arg_str(t, 0) != 'excluding':
+            if not re.search(r'::contains$', callee_name(t)):
+                continue
+            a0 = t['args'][0]
+            if is_helper:
+                pnames = set(body.names.get(i) for i in range(1, body.argc + 1))
+                if o.arg_str(t, 0) not in pnames:
+                    continue
+            elif o.arg_str(t, 0) != 'excluding':
                 continue
             found = True
             r.site('%s @%s contains(excluding, %s)' % (f['qual'], body.ln(bi), o.arg_str(t, 1)[:60]))
@@ -51,7 +65,7 @@ def receiver_exclusion(P):
                 if body.fn['locals'][tt['d']['pl']['l']]['ty'] != 'bool' or len(tt['ts']) != 1:
                     continue
                 rel = gx.cond_of_local(tt['d']['pl']['l'])
-                if rel[0] not in ('==', '!=') or not re.search(r'^\(idx Rem const 2\)$', rel[1]) or rel[2] not in ('const 1', 'const 0'):
+                if rel[0] not in ('==', '!=') or not re.search(r'^\(\w+ Rem const 2\)$', rel[1]) or rel[2] not in ('const 1', 'const 0'):
                     continue
                 v, tgt = tt['ts'][0]
                 false_t, true_t = (tgt, tt['o']) if v == '0' else (tt['o'], tgt)
